@@ -55,8 +55,8 @@ func C11(tier common.Tier) int {
 	run.Assume("scheduling points at Pass callbacks are sufficient for order dependence through shared state; unsynchronised accesses between points are delegated to the free-running -race pass", "Go's per-map random iteration order is re-drawn in every execution: a message built by ranging over a map shows up as a mismatch with high probability but is not owned by the scheduler")
 	shapes := e4.Shapes()
 	progs := []*prog.Program{e4.WithUnrelated(e4.Chain(shapes[1])), e4.WithUnrelated(e4.Diamond(shapes[3]))}
-	progs = append(progs, e4.LineDirectives(), e4.SharedSyntax(), e4.FileBoundaries())
-	names := []string{"chain+unrelated", "diamond+unrelated", "line-directives", "shared-syntax", "file-boundaries"}
+	progs = append(progs, e4.LineDirectives(), e4.SharedSyntax(), e4.FileBoundaries(), e4.IgnoresEverywhere())
+	names := []string{"chain+unrelated", "diamond+unrelated", "line-directives", "shared-syntax", "file-boundaries", "ignores-everywhere"}
 
 	common.Sharded(run, common.NumWorkers(), func(run *common.Run, sh common.Shard) {
 		for pi, p := range progs {
@@ -237,6 +237,17 @@ func C11(tier common.Tier) int {
 		for rep := 0; rep < 3; rep++ {
 			for _, ps := range [][]string{pats, rev, rot, without, {"./..."}} {
 				cells = append(cells, cell{drv.Standalone, nil, ps}, cell{drv.Standalone, []string{"-debug=p"}, ps}, cell{drv.Vet, nil, ps})
+			}
+		}
+		// the same under a project-wide exclusion made of tokens that are no codes (they exclude nothing): per-package results must
+		// still be those of the reference run, whichever packages are analysed alongside and in whichever order
+		for _, ps := range [][]string{pats, rev, rot, without, {"./..."}} {
+			ex := "-config.exclude-checks=ZZZ9,QQQ1"
+			cells = append(cells, cell{drv.Standalone, []string{ex}, ps}, cell{drv.Standalone, []string{ex, "-debug=p"}, ps}, cell{drv.Vet, []string{ex}, ps})
+			for _, one := range ps {
+				if one != "./..." {
+					cells = append(cells, cell{drv.Standalone, []string{ex}, []string{one}})
+				}
 			}
 		}
 		drv.ParallelDo(len(cells), common.NumWorkers(), func(i int) {
